@@ -22,6 +22,14 @@ import (
 //  (3) through the public bitrate meter (kbit/s scaling, refusal before Start),
 //  (4) through the public request-rate meter.
 // After every observation the three rates and the average are compared with the specification.
+//
+// Cases of the family "life" are histories of {Start, Close, Observe, ReadRate(1..4)}: every call of
+// the history is made on the public bitrate meter and on the public request-rate meter (Start by
+// the hook flag, sampling by the hook with the injected clock, Close and every read by the public
+// methods) and each read is judged by the lifecycle state the specification says it happens in;
+// histories without observations are replayed once more with the real Start(), which spawns the
+// sampling goroutine (the counter stays 0 there, so the goroutine changes nothing; every meter
+// that was really started is closed before the case ends, which stops its goroutine).
 
 type kxCase struct {
 	Fam string    `json:"fam"`
@@ -30,6 +38,25 @@ type kxCase struct {
 	Kr  []int64   `json:"kr"`
 	H   [][]int64 `json:"h"`
 }
+
+// kinds of history entries
+const (
+	kObserve = 0
+	kStart   = 1
+	kClose   = 2
+	kRead    = 3
+)
+
+// indices into a read entry <<3, i, ok, cls, num, den>>
+const (
+	rKind = iota
+	rWhich
+	rOk
+	rCls
+	rNum
+	rDen
+	rLen
+)
 
 // indices into an observe entry
 const (
@@ -88,6 +115,7 @@ func rateOf(num, den int64, scale float64, mul, div int64) float64 {
 }
 
 var winName = [3]string{"10s", "30s", "300s"}
+var readName = [4]string{"10s rate", "30s rate", "300s rate", "average"}
 
 func moveString(e []int64) string {
 	if e[eMk] == 0 {
@@ -100,8 +128,15 @@ func describe(h [][]int64, upto int, shift uint) string {
 	s := ""
 	for k := 0; k <= upto && k < len(h); k++ {
 		e := h[k]
-		if e[eKind] == 1 {
+		switch e[eKind] {
+		case kStart:
 			s += " Start;"
+			continue
+		case kClose:
+			s += " Close;"
+			continue
+		case kRead:
+			s += " read " + readName[e[rWhich]-1] + ";"
 			continue
 		}
 		s += fmt.Sprintf(" [t=%dms %s -> %d]", e[eNow], moveString(e), e[eCnt])
@@ -344,40 +379,192 @@ func replayPublic(cs *kxCase, kind string) *rp.Result {
 			r := rp.Fail(0, "%s: average reads %v: not finite and non-negative; history:%s", p.who, v, describe(cs.H, k, 0))
 			return &r
 		}
-		if e[eCnt] == 0 || (e[eAvn] == 0 && e[eAva] == 0) {
-			if v != 0 {
-				r := rp.Fail(0, "%s: average reads %v, want 0 (no growth since the first non-zero observation); history:%s", p.who, v, describe(cs.H, k, 0))
-				return &r
+		if r := checkPubAverage(cs, p, k, e, now, v, t1, t2); r != nil {
+			return r
+		}
+	}
+	return nil
+}
+
+// checkPubAverage judges a value v the public Average() returned at a real instant in [t1, t2] when the last
+// observation was entry e (index k) at the injected instant now.
+func checkPubAverage(cs *kxCase, p *pubMeter, k int, e []int64, now time.Time, v float64, t1, t2 time.Time) *rp.Result {
+	if e[eCnt] == 0 || (e[eAvn] == 0 && e[eAva] == 0) {
+		if v != 0 {
+			r := rp.Fail(0, "%s: average reads %v, want 0 (no growth since the first non-zero observation); history:%s", p.who, v, describe(cs.H, k, 0))
+			return &r
+		}
+		return nil
+	}
+	// the read happened at some real instant in [t1, t2]; the first non-zero observation was
+	// at injected instant now - avd
+	t0 := now.Add(-time.Duration(e[eAvd]) * time.Millisecond)
+	d1 := int64(t1.Sub(t0) / time.Millisecond)
+	d2 := int64(t2.Sub(t0) / time.Millisecond)
+	if d1 <= 0 || d2 < d1 {
+		broken("clock: d1=%d d2=%d", d1, d2)
+	}
+	ok := false
+	var lo, hi float64
+	for _, num := range []int64{e[eAvn], e[eAva]} {
+		if num == 0 {
+			if v == 0 {
+				ok = true
 			}
 			continue
 		}
-		// the read happened at some real instant in [t1, t2]; the first non-zero observation was
-		// at injected instant now - avd
-		t0 := now.Add(-time.Duration(e[eAvd]) * time.Millisecond)
-		d1 := int64(t1.Sub(t0) / time.Millisecond)
-		d2 := int64(t2.Sub(t0) / time.Millisecond)
-		if d1 <= 0 || d2 < d1 {
-			broken("clock: d1=%d d2=%d", d1, d2)
+		lo = rateOf(num, d2, 1, p.mul, p.div)
+		hi = rateOf(num, d1, 1, p.mul, p.div)
+		if v >= lo*(1-relTol) && v <= hi*(1+relTol) {
+			ok = true
 		}
-		ok := false
-		var lo, hi float64
-		for _, num := range []int64{e[eAvn], e[eAva]} {
-			if num == 0 {
-				if v == 0 {
-					ok = true
+	}
+	if !ok {
+		r := rp.Fail(0, "%s: average reads %v, want growth*1000/elapsed x %d/%d in [%v, %v] (growth*1000 = %d, elapsed %d..%d ms); history:%s",
+			p.who, v, p.mul, p.div, lo, hi, e[eAvn], d1, d2, describe(cs.H, k, 0))
+		return &r
+	}
+	return nil
+}
+
+// replayLife: one history of the lifecycle family on a public meter.
+//   real = false: Start is the hook's flag, observations are driven through the hook with the injected clock;
+//   real = true:  Start is the real Start() (sampling goroutine), the counter stays 0 and observations are skipped
+//                 (the goroutine samples a zero counter: nothing changes), so every answered read must return 0.
+// Close and the reads are the public methods in both modes. A read entry is judged by its class:
+//   0 the meter was never started (new, or closed without a start): must be refused;
+//   1 the meter is running: must be answered, with the value the specification holds;
+//   2 closed after a start / started again after Close: the property is silent, either outcome is
+//     accepted; a value, if one is returned, must be finite and non-negative.
+func replayLife(cs *kxCase, kind string, real bool) (res *rp.Result) {
+	src := &counter{}
+	p, h := newPub(kind, cs, src)
+	if h == nil {
+		broken("VerifOf(%s) returned nil", kind)
+	}
+	mode := " (Start = hook flag)"
+	if real {
+		mode = " (real Start)"
+	}
+	p.who += mode
+	var total int64
+	for _, e := range cs.H {
+		if e[eKind] == kObserve {
+			total = e[eNow]
+		}
+	}
+	base := time.Now().Add(-time.Duration(total+2000) * time.Millisecond)
+	var cur meterView
+	var lastObs []int64
+	var lastNow time.Time
+	lastK := -1
+	closedBefore, startedReal := false, false
+	defer func() {
+		if startedReal {
+			p.close() // stops the sampling goroutine of this case
+		}
+	}()
+	for k, e := range cs.H {
+		switch e[eKind] {
+		case kStart:
+			if !real {
+				h.SetStarted(true)
+				continue
+			}
+			err := p.start()
+			startedReal = true
+			if err != nil && !closedBefore {
+				r := rp.Fail(0, "%s: Start failed: %v; history:%s", p.who, err, describe(cs.H, k, 0))
+				return &r
+			}
+		case kClose:
+			p.close() // what Close returns is not judged
+			closedBefore = true
+		case kObserve:
+			if real {
+				continue
+			}
+			src.n = uint64(e[eCnt])
+			now := base.Add(time.Duration(e[eNow]) * time.Millisecond)
+			if err := h.Sample(now); err != nil {
+				r := rp.Fail(0, "%s: sampling step at observation %d failed: %v", p.who, k, err)
+				return &r
+			}
+			h.Average(now)
+			var under [3]float64
+			under[0], under[1], under[2] = h.Rates()
+			if r := checkRates(cs, k, e, under, &cur, 1, 0, p.who+" (shared part)"); r != nil {
+				return r
+			}
+			lastObs, lastNow, lastK = e, now, k
+		case kRead:
+			w := int(e[rWhich]) - 1
+			f := p.average
+			if w < 3 {
+				f = p.rates[w]
+			}
+			t1 := time.Now()
+			v, refused, why := read(f)
+			t2 := time.Now()
+			switch e[rCls] {
+			case 0:
+				if !refused {
+					r := rp.Fail(0, "%s: the meter was never started, but reading its %s is not refused (returned %v); history:%s", p.who, readName[w], v, describe(cs.H, k, 0))
+					if closedBefore {
+						r.Deviation = "C20/closed-counts-as-started"
+					} else {
+						r.Deviation = "C20/read-unguarded"
+					}
+					return &r
+				}
+				continue
+			case 1:
+				if refused {
+					r := rp.Fail(0, "%s: the meter is started and not closed, but reading its %s panics: %v; history:%s", p.who, readName[w], why, describe(cs.H, k, 0))
+					return &r
+				}
+			case 2:
+				if refused {
+					continue
+				}
+				if !sane(v) {
+					r := rp.Fail(0, "%s: %s reads %v: not finite and non-negative; history:%s", p.who, readName[w], v, describe(cs.H, k, 0))
+					return &r
+				}
+				continue
+			default:
+				broken("entry %d: read class %d", k, e[rCls])
+			}
+			// a running meter: the value
+			if !sane(v) {
+				r := rp.Fail(0, "%s: %s reads %v: not finite and non-negative; history:%s", p.who, readName[w], v, describe(cs.H, k, 0))
+				return &r
+			}
+			if real || lastObs == nil {
+				if v != 0 {
+					r := rp.Fail(0, "%s: %s of a meter that never saw a non-zero counter reads %v; history:%s", p.who, readName[w], v, describe(cs.H, k, 0))
+					return &r
 				}
 				continue
 			}
-			lo = rateOf(num, d2, 1, p.mul, p.div)
-			hi = rateOf(num, d1, 1, p.mul, p.div)
-			if v >= lo*(1-relTol) && v <= hi*(1+relTol) {
-				ok = true
+			if w < 3 {
+				if cur.loose[w] {
+					continue
+				}
+				if den := e[rDen]; den > 0 && !closeTo(cur.cur[w], rateOf(e[rNum], den, 1, 1, 1)) {
+					broken("entry %d: the read's value %d/%d is not the rate after the last observation, %v", k, e[rNum], den, cur.cur[w])
+				}
+				exp := cur.cur[w] * float64(p.mul) / float64(p.div)
+				if !closeTo(v, exp) {
+					r := rp.Fail(0, "%s: %s reads %v, want %v (= %v per second x %d/%d); history:%s", p.who, readName[w], v, exp, cur.cur[w], p.mul, p.div, describe(cs.H, k, 0))
+					return &r
+				}
+				continue
 			}
-		}
-		if !ok {
-			r := rp.Fail(0, "%s: average reads %v, want growth*1000/elapsed x %d/%d in [%v, %v] (growth*1000 = %d, elapsed %d..%d ms); history:%s",
-				p.who, v, p.mul, p.div, lo, hi, e[eAvn], d1, d2, describe(cs.H, k, 0))
-			return &r
+			if r := checkPubAverage(cs, p, lastK, lastObs, lastNow, v, t1, t2); r != nil {
+				r.What += fmt.Sprintf(" (read at entry %d of%s)", k, describe(cs.H, k, 0))
+				return r
+			}
 		}
 	}
 	return nil
@@ -433,14 +620,40 @@ func init() {
 		if len(cs.W) != 3 || len(cs.Kb) != 2 || len(cs.Kr) != 2 {
 			broken("case %d: malformed header", i)
 		}
-		hasStart := false
+		hasStart, hasObserve := false, false
 		for k, e := range cs.H {
-			if len(e) < 2 || (e[eKind] == 0 && len(e) != eLen) || e[eKind] < 0 || e[eKind] > 1 {
+			if len(e) < 2 || e[eKind] < 0 || e[eKind] > kRead {
 				broken("case %d: malformed entry %d", i, k)
 			}
-			if e[eKind] == 1 {
+			switch e[eKind] {
+			case kObserve:
+				hasObserve = true
+				if len(e) != eLen {
+					broken("case %d: malformed observe entry %d", i, k)
+				}
+			case kStart:
 				hasStart = true
+			case kRead:
+				if len(e) != rLen || e[rWhich] < 1 || e[rWhich] > 4 {
+					broken("case %d: malformed read entry %d", i, k)
+				}
 			}
+			if e[eKind] >= kClose && cs.Fam != "life" {
+				broken("case %d: entry %d of kind %d outside the lifecycle family", i, k, e[eKind])
+			}
+		}
+		if cs.Fam == "life" {
+			for _, kind := range []string{"kbps", "krps"} {
+				if r := replayLife(&cs, kind, false); r != nil {
+					return *r
+				}
+				if !hasObserve {
+					if r := replayLife(&cs, kind, true); r != nil {
+						return *r
+					}
+				}
+			}
+			return rp.Result{OK: true, Nontriv: true}
 		}
 		if r := replayHook(&cs, 0); r != nil {
 			return *r
